@@ -1,7 +1,9 @@
 /-
   C04 — if / elseif / else / while / for-in behave as properly nested structured blocks.
-  Stage 1 (block boundary discovery, for the keyword tables regenerated from the source):
-  Props/C04Scan.lean.  Stage 2 (execution = tree-walking interpreter): Props/C04Sim.lean
-  is imported here once its proofs are complete.
+  Props/C04Scan.lean : stage 1, block boundary discovery (for the keyword tables regenerated
+                       from the source).
+  Props/C04Sim.lean  : stage 2, execution of the goto-machine = tree-walking interpreter
+                       (proved for the `simple` fragment; the full statement is kept visible).
 -/
 import DuckModel.Props.C04Scan
+import DuckModel.Props.C04Sim
